@@ -95,7 +95,7 @@ def walk(v, el, ref, sites, depth=0):
                 continue
             seen.add(n)
             kids = [c for c in el.children.list if c.name == n]
-            if mn >= 1 and len(kids) == mn and n != 'MSH':     # a message without MSH has no delimiters to encode with
+            if mn >= 1 and len(kids) == mn:     # (MSH too: the message then encodes with the default delimiters)
                 sites.setdefault('remove-required', []).append((el, n, kids[-1]))
             if mx != -1 and n != 'MSH' and (kind == 'SEG' and not T.segment_defect(v, n) and n in T.lib(v).SEGMENTS or kind == 'GRP'):
                 sites.setdefault('exceed-max', []).append((el, n, mx - len(kids) + 1, kind))
@@ -106,11 +106,11 @@ def walk(v, el, ref, sites, depth=0):
         if rows and rows[-1][1][2] != 'varies' and not el.name.startswith('Z') and el.name != 'MSH':
             sites.setdefault('unknown-field', []).append((el, T.idx_of(rows[-1][0])))
         for (n, r, (mn, mx)) in rows:
-            if el.name == 'MSH' and T.idx_of(n) in (1, 2):
-                continue
             kids = [c for c in el.children.list if c.name == n]
             if mn >= 1 and len(kids) == mn:
                 sites.setdefault('remove-required', []).append((el, n, kids[-1]))
+            if el.name == 'MSH' and T.idx_of(n) in (1, 2):
+                continue
             if mx != -1 and mx <= 3 and (kids or mx == 0):
                 sites.setdefault('exceed-max', []).append((el, n, mx - len(kids) + 1, 'FIE'))
             for c in kids:
